@@ -430,7 +430,9 @@ Definition eval (l : list astmt) : option mval :=
 Definition valid (l : list astmt) : Prop := exists v, eval l = Some v.
 
 (* the same statements through the unmodified Spec/Defs.v interpreter (moves a table to the
-   end when its own header arrives late); related to `eval` in Proofs/MacroEq.v *)
+   end when its own header arrives late: the trees differ from `eval`'s in the order of keys only;
+   that relation is not proved in Coq, the correspondence run compares `eval` with the real
+   parser's key-sorted tables) *)
 Fixpoint stmts_meaning (l : list astmt) : option (list (stmt mval)) :=
   match l with
   | [] => Some []
